@@ -236,9 +236,14 @@ def r6(fx):
         for s, b in lst:
             thr = ev.ev(b['c'], {})
             body = single(s.body, 'N1 scoring statement')
-            bb = pat.match(body, f'H_s += {name} - H_d', mode='stmt')
+            need(isinstance(body, ast.AugAssign) and isinstance(body.op, ast.Add) and isinstance(body.target, ast.Name), 'N1 scoring statement is not `score += ...`')
+            try:
+                aff = nf.affine(body.value)
+            except Unknown:
+                aff = None
+            need(aff is not None and set(aff) <= {name, ''}, f'N1 score `{ast.unparse(body.value)}` is not an affine form of the run counter')
             yield ob(f'{name} site line-scan/line-end: threshold 5, score counter - 2',
-                     thr == 5 and bb is not None and ev.ev(bb['d'], {}) == 2 and not s.orelse, s,
+                     thr == 5 and aff == {name: 1, '': -2} and not s.orelse, s,
                      got=ast.unparse(s)[:90], want=f'if {name} >= 5: score_n1 += {name} - 2')
     # counters restart at 1, increment by 1
     for name in list(sites):
@@ -269,47 +274,146 @@ def _self_overlap(lit):
 @rule('C06', 'R7', 5, 'N3: literal 1011101, 40 points, light-area test 4 wide on either side or symbol edge, search resumes within the self-overlap shift')
 def r7(fx):
     fn = fx.fn('encoder', 'mask_scores')
-    occ = fx.fn('encoder', 'mask_scores.n3_pattern_occurrences')
-    lit = single([s for s in fn.body if isinstance(s, ast.Assign) and ast.unparse(s.targets[0]) == 'n3_pattern'], 'N3 literal')
-    val = list(ev.ev(lit.value, {}))
-    yield ob('N3 literal', val == [1, 0, 1, 1, 1, 0, 1], lit, got=val, want=[1, 0, 1, 1, 1, 0, 1])
-    s = _self_overlap(val)
-    w = single([x for x in occ.body if isinstance(x, ast.While)], 'while loop of the N3 search')
-    pat.need(w.test, 'idx != -1', 'N3 loop condition')
-    finds = [c for c in src.calls_in(w) if pat.match(c, 'seq.find(n3_pattern, H_o)') is not None]
-    f = single(finds, 'seq.find(n3_pattern, offset) inside the loop')
-    o = pat.match(f, 'seq.find(n3_pattern, H_o)')['o']
-    # all definitions of the resume expression inside the loop
-    exprs = [o]
-    if isinstance(o, ast.Name):
-        exprs = [a.value for a in src.statements(w.body) if isinstance(a, ast.Assign) and ast.unparse(a.targets[0]) == o.id]
-        need(exprs, f'no definition of {o.id} in the N3 loop')
-    shifts = []
-    for e in exprs:
-        a = nf.affine(e)
-        if set(a) - {'', 'idx'} or a.get('idx') != 1:
-            raise Unknown(f'N3 resume offset `{ast.unparse(e)}` is not idx + constant')
-        shifts.append(a[''])
-    yield ob(f'search resumes at idx + k with 1 <= k <= {s} (smallest self-overlap shift of the literal)',
-             all(1 <= k <= s for k in shifts), f, got=[f'idx + {k}' for k in shifts], want=f'idx + 1 .. idx + {s}')
-    st = nf.enclosing_stmt(f)
-    yield ob('the resumed search is the loop variable update on every path', isinstance(st, ast.Assign) and ast.unparse(st.targets[0]) == 'idx'
-             and st in w.body, st, got=ast.unparse(st), want='idx = seq.find(n3_pattern, idx + k) at loop level')
-    sc = [x for x in src.statements(w.body) if isinstance(x, ast.AugAssign) and ast.unparse(x.target) == 'count']
-    c = single(sc, 'N3 scoring statement')
-    g = nf.guards_of(c, occ)
-    cond = g[-1][0]
-    want = ('idx in (0, qr_size - 7) or not any(seq[max(idx - 4, 0):min(idx, qr_size)]) '
-            'or not any(seq[max(offset, 0):min(offset + 4, qr_size)])')
-    offs = [a for a in src.statements(w.body) if isinstance(a, ast.Assign) and ast.unparse(a.targets[0]) == 'offset']
-    ok_off = len(offs) == 1 and nf.affine(offs[0].value) == {'idx': 1, '': 7} and w.body.index(offs[0]) < w.body.index(nf.enclosing_stmt(cond))
-    yield ob('40 points when at the symbol edge or 4 light modules precede or follow', ev.ev(c.value, {}) == 40
-             and nf.same(cond, want) and ok_off, c,
-             got=f'count += {ast.unparse(c.value)} if {ast.unparse(cond)}; offset = {ast.unparse(offs[0].value) if offs else None}', want='count += 40 if ' + want + '; offset = idx + 7')
-    # used for rows and columns
-    uses = [x for x in src.calls_in(fn, 'n3_pattern_occurrences', into_nested=False)]
-    args = sorted(ast.unparse(u.args[0]) for u in uses)
+    env = ev.base_env(fx.forest, 'encoder')
+    # the search loops: `while <i> != -1` around `<seq>.find(<pattern>, <resume>)`, in mask_scores or a function nested in it
+    loops = []
+    for w in ast.walk(fn):
+        if isinstance(w, ast.While):
+            b = pat.match(w.test, 'H_i != -1')
+            if b is not None and isinstance(b['i'], ast.Name):
+                loops.append((w, b['i'].id))
+    need(loops, 'no `while idx != -1` search loop in mask_scores')
+    scored_seqs = []
+    for w, iv in loops:
+        owner = w
+        while not isinstance(owner, ast.FunctionDef):
+            owner = owner._parent
+        finds = [c for c in src.calls_in(w) if isinstance(c.func, ast.Attribute) and c.func.attr == 'find' and len(c.args) == 2]
+        f = single(finds, 'seq.find(pattern, offset) inside the N3 loop')
+        seq = ast.unparse(f.func.value)
+        # the literal searched for
+        lit = f.args[0]
+        if isinstance(lit, ast.Name):
+            defs = [s_ for s_ in src.statements(owner.body) if isinstance(s_, ast.Assign) and ast.unparse(s_.targets[0]) == lit.id] or \
+                   [s_ for s_ in fn.body if isinstance(s_, ast.Assign) and ast.unparse(s_.targets[0]) == lit.id]
+            lit = single(defs, 'definition of the N3 literal').value
+        val = list(ev.ev(lit, env))
+        yield ob('N3 literal', val == [1, 0, 1, 1, 1, 0, 1], lit, got=val, want=[1, 0, 1, 1, 1, 0, 1])
+        shift = _self_overlap(val)
+        # first search starts at the beginning
+        first = [c for c in src.calls_in(owner) if isinstance(c.func, ast.Attribute) and c.func.attr == 'find' and len(c.args) == 1
+                 and ast.unparse(c.func.value) == seq]
+        yield ob('the search starts at the beginning of the line', len(first) >= 1, f, got=[ast.unparse(c) for c in first], want=f'{seq}.find(pattern)')
+        o = f.args[1]
+        exprs = [o]
+        if isinstance(o, ast.Name):
+            exprs = [a.value for a in src.statements(w.body) if isinstance(a, ast.Assign) and ast.unparse(a.targets[0]) == o.id]
+            need(exprs, f'no definition of {o.id} in the N3 loop')
+        shifts = []
+        for e in exprs:
+            a = nf.affine(e, env)
+            if set(a) - {'', iv} or a.get(iv) != 1:
+                raise Unknown(f'N3 resume offset `{ast.unparse(e)}` is not {iv} + constant')
+            shifts.append(a[''])
+        yield ob(f'search resumes at idx + k with 1 <= k <= {shift} (smallest self-overlap shift of the literal)',
+                 all(1 <= k <= shift for k in shifts), f, got=[f'idx + {k}' for k in shifts], want=f'idx + 1 .. idx + {shift}')
+        st = nf.enclosing_stmt(f)
+        yield ob('the resumed search is the loop variable update on every path', isinstance(st, ast.Assign) and ast.unparse(st.targets[0]) == iv
+                 and st in w.body, st, got=ast.unparse(st), want=f'{iv} = seq.find(pattern, {iv} + k) at loop level')
+        # scoring statements: `<count> += 40` under (edge or light before or light after)
+        sc = [x for x in src.statements(w.body) if isinstance(x, ast.AugAssign) and isinstance(x.op, ast.Add) and isinstance(x.target, ast.Name)
+              and x.target.id != iv]
+        need(sc, 'no N3 scoring statement in the search loop')
+        need(len({x.target.id for x in sc}) == 1, 'N3 loop adds to more than one variable')
+        pts = sorted({ev.ev(x.value, env) for x in sc})
+        # locals defined once in the loop body before use (offset = idx + 7) are replaced by their definition
+        ldefs = {}
+        for a_ in w.body:
+            if isinstance(a_, ast.Assign) and len(a_.targets) == 1 and isinstance(a_.targets[0], ast.Name) and a_.targets[0].id != iv:
+                ldefs[a_.targets[0].id] = a_.value
+
+        class Sub(ast.NodeTransformer):
+            def visit_Name(self, node):
+                if isinstance(node.ctx, ast.Load) and node.id in ldefs:
+                    import copy as _c
+                    return _c.deepcopy(ldefs[node.id])
+                return node
+        import copy as _copy
+        got_f = ('or', [])
+        texts = []
+        for x in sc:
+            conj = []
+            child = x
+            pth = nf.path(x, w)
+            texts.append(ast.unparse(x))
+            got_f[1].append(pth)
+        # rebuild the formula with the loop-local definitions substituted: easier on the source conditions
+        conds = []
+        for x in sc:
+            gs = []
+            c_, p_ = x, x._parent
+            while p_ is not w:
+                if isinstance(p_, ast.If):
+                    t = Sub().visit(_copy.deepcopy(p_.test))
+                    gs.append(nf.prop(t) if c_ in p_.body else ('not', nf.prop(t)))
+                c_, p_ = p_, p_._parent
+            conds.append(('and', gs))
+        got_f = ('or', conds)
+        names = {n.id for x in sc for g in [x] for a_ in src.ancestors(x) if isinstance(a_, ast.If) and a_ is not w
+                 for n in ast.walk(Sub().visit(_copy.deepcopy(a_.test))) if isinstance(n, ast.Name)} - {iv} - set(dir(__import__('builtins')))
+        seq_names = {n.id for n in ast.walk(f.func.value) if isinstance(n, ast.Name)}
+        size_names = sorted(names - seq_names)
+        need(len(size_names) == 1, f'N3 scoring condition mentions {size_names} besides the line and the index: cannot tell the size variable')
+        N = size_names[0]
+        want = (f'{iv} in (0, {N} - 7) or not any({seq}[max({iv} - 4, 0):min({iv}, {N})]) '
+                f'or not any({seq}[max({iv} + 7, 0):min({iv} + 7 + 4, {N})])')
+        want_f = nf.prop(ast.parse(want, mode='eval').body)
+        # affine slice bounds: compare with constants folded (idx + 7 + 4 == idx + 11)
+        ok = nf.equiv(_fold_affine(got_f, env), _fold_affine(want_f, env))
+        yield ob('40 points when at the symbol edge or 4 light modules precede or follow', pts == [40] and ok, sc[0],
+                 got=f'{"; ".join(texts)} under {[nf.guard_text(nf.guards_of(x, w)) for x in sc]}', want='count += 40 if ' + want)
+        scored_seqs.append(seq)
+        sizes_ok = N
+    # used for rows and columns: the loops (or the function holding the loop) are run on the row and on the column
+    nested = [w for w, _ in loops if any(isinstance(a, ast.FunctionDef) and a is not fn for a in src.ancestors(w))]
+    if nested:
+        owner = nested[0]
+        while not isinstance(owner, ast.FunctionDef):
+            owner = owner._parent
+        uses = [x for x in src.calls_in(fn, owner.name, into_nested=False)]
+        args = sorted(ast.unparse(u.args[0]) for u in uses)
+    else:
+        args = sorted(scored_seqs)
     yield ob('N3 evaluated for every row and every column', args == ['n3_column', 'row'], fn, got=args, want=['n3_column', 'row'])
+
+
+def _fold_affine(f, env=None):
+    """Atoms are texts; refold arithmetic inside them so that `idx + 7 + 4` and `idx + 11` are one atom."""
+    if f[0] == 'atom':
+        try:
+            node = ast.parse(f[1], mode='eval').body
+        except SyntaxError:
+            return f
+
+        class T(ast.NodeTransformer):
+            def visit_BinOp(self, node):
+                self.generic_visit(node)
+                try:
+                    a = nf.affine(node, env)
+                except Unknown:
+                    return node
+                if all(isinstance(v, int) for v in a.values()):
+                    return ast.parse(nf.fmt_affine(a), mode='eval').body
+                return node
+        try:
+            return ('atom', nf.norm(T().visit(node)))
+        except Exception:
+            return f
+    if f[0] == 'not':
+        return ('not', _fold_affine(f[1], env))
+    if f[0] in ('and', 'or'):
+        return (f[0], [_fold_affine(x, env) for x in f[1]])
+    return f
 
 
 @rule('C06', 'R8', 6, 'N4 = 10*floor(|100*dark/size^2 - 50|/5) for every dark count; Micro score = min*16 + max over last column/row without index 0')
